@@ -9,7 +9,8 @@ MCGood2 == { T("fd", {"fd"}), T("e6", {"e6"}), T("tgt", {"tgt"}), T("tgt2", {"tg
 \* third catalogue: identities and includes over time (bases that arrive later, a foreign include, a submodule revision that drops an identity)
 MCGood3 == { T("idm", {"idm"}), T("idb", {"idb"}), T("fm1", {"fm1"}), T("fm2", {"fm2"}), T("fs", {"fs"}),
              T("au", {"ida", "idu"}), T("sr1", {"ids@1"}), T("sr2", {"ids@2"}), T("ibf", {"ibf"}),
-             T("lnk", {"lnk"}) }      \* (its import can be satisfied from the directory of ibf's file, once that has been read)
+             T("lnk", {"lnk"}),
+             T("lo", {"lom"}), T("lo1", {"los@1"}), T("lo2", {"los@2"}) }      \* (its import can be satisfied from the directory of ibf's file, once that has been read)
 \* two revisions of a module and two revisions of its importer, each importer revision pinned to its own revision (C05)
 MCGoodRev == { T("bb-r1", {"bb@1"}), T("bb-r2", {"bb@2"}), T("ab-r1", {"ab@1"}), T("ab-r2", {"ab@2"}) }
 MCBad3 == { "x-file-syntax" }
